@@ -18,6 +18,10 @@ def jobs(rng, thorough):
 def run(ctx: core.Ctx):
     ctx.lean_stage(extra_props=("Tie",))
     b2check.run_b2(ctx, jobs, ["C13"], label="keep-alive scenarios")
+    # exhaustive within a bound: every schedule up to 3 (thorough: 5) deviations from the canonical one, on small scenarios
+    _small = gen.small_scenarios()
+    b2check.run_systematic(ctx, [_small[n] for n in ['traffic', 'own-modelname', 'two-callers']], ["C13"], depth=5 if ctx.tier == "thorough" else 3,
+                           label="traffic, own-modelname, two-callers", max_runs=60000 if ctx.tier == "thorough" else 6000)
     b2check.run_b2(ctx, lambda rng, th: [(gen.conn_keepalive_two(rng), rng.randrange(10 ** 9), rng.choice([0, 3])) for _ in range(20000 if th else 250)], ["C13two"],
                    label="a second connection with its own probes and queries alive in the same process (monitor only, first connection judged)", accept=False)
     ctx.info["rule"] = ("probes, user MODELNAME queries racing them, other commands, unsolicited device lines, reply latencies 0..1.2 s, first probe swallowed or not; each under a seeded schedule with extra line-level preemptions; a case = one schedule; "
